@@ -194,9 +194,10 @@ def run_history(hist, texts):
         steps += 1 + len(QUERIES)
         mt = table_ref(ref, QUERIES)
         if ev[0] == 'badload' and got != 'raised':
-            # the property only speaks about loads that raise; a text that is not Python
-            # cannot load, so not raising is only possible for S5-like texts
-            return ('violation', 'badload-did-not-raise', label + 'loading a text that raises while executing did not raise')
+            # the property only speaks about loads that RAISE (they must leave the engine
+            # unchanged); what a load that swallows the error of its script should leave behind
+            # is not specified, so the history ends here and is not judged further
+            return ('unspecified', 'load of a failing script did not raise')
         if tb != mt:
             sig = '%s:answers-differ' % ev[0]
             return ('violation', sig, label + 'after event %d:\n  observed: %s\n  model:    %s' % (n + 1, show_table(tb), show_table(mt)))
@@ -239,6 +240,9 @@ def run_shard(spec):
         acc.n['evaluations'] += 1
         acc.n['validated'] += 1
         r = run_history(hist, texts)
+        if r[0] == 'unspecified':
+            acc.skipped[r[1]] += 1
+            continue
         if r[0] == 'violation':
             acc.violation(r[1], (depth, idx), {'hist': list(hist)}, r[2], key=str(list(hist)))
             continue
